@@ -375,6 +375,11 @@ func genC10(g *rand.Rand, tier string) any {
 			c.HSendN = 1 + g.IntN(4)
 			c.CProg = []Op{{K: 'f', A: nil, B: []Op{{K: 'w'}}}}
 			c.HProg = []Op{{K: 's', N: c.HSendN}, {K: 'w'}}
+			if p.Links[1].Cap != -1 && c.Kind != KCStream && g.IntN(2) == 0 {
+				// a producer: sends until Send fails, which is how it learns that the call
+				// is over (its caller does not read: it blocks in Send on the bounded link)
+				c.HProg = []Op{{K: 'e'}}
+			}
 		default: // handler waits for its context
 			c.CProg = []Op{{K: 'f', A: nil, B: []Op{{K: 'R'}}}}
 			c.HProg = []Op{{K: 'w'}}
@@ -587,6 +592,7 @@ type C11Params struct {
 	Others  []*CallSpec `json:"others"`
 	Probe   *CallSpec   `json:"probe"`
 	Warmup  int         `json:"warmup,omitempty"` // streams the connection has carried (and the server has ended) before the scenario starts
+	ErrKind int         `json:"err_kind,omitempty"` // mode 4: the error the transport reports for the refused write (InjectedErr)
 }
 
 func genC11(g *rand.Rand, tier string) any {
@@ -601,7 +607,25 @@ func genC11(g *rand.Rand, tier string) any {
 	if g.IntN(5) == 0 {
 		p.Mode = 2 + g.IntN(2)
 	}
-	if p.Mode == 2 {
+	if p.Mode < 2 && g.IntN(8) == 0 {
+		p.Mode = 4
+	}
+	if p.Mode == 4 {
+		// the transport refuses one message of the caller (the connection stays usable)
+		// while m responses are unread; the caller does what generated code does with a
+		// failed Send - it gives the call up, without cancelling anything
+		a.Kind = KBidi
+		a.Stub = true
+		m := 3 + g.IntN(4)
+		a.CSendN, a.HSendN = 1, m
+		a.HProg = []Op{{K: 's', N: m}, {K: 'n'}, {K: 'w'}}
+		a.CProg = []Op{{K: 'b'}, {K: 's'}}
+		p.ErrKind = g.IntN(NumInjectedErrs)
+		// (unbounded links: the handler's sends complete into the transport whether or not
+		// anybody reads them)
+		p.Links[0].Cap, p.Links[1].Cap = -1, -1
+		classU = true
+	} else if p.Mode == 2 {
 		// the caller stops reading and does not cancel: it sits on its stream with
 		// responses (and the final status) unread while the handler finishes
 		if a.Kind == KCStream {
@@ -796,6 +820,22 @@ func execC11(e *Env, pp any) {
 		}
 		e.Note("abandon.after-warmup")
 	}
+	if p.Mode == 4 {
+		refused := false
+		var wireID uint64
+		net.CEnds[0].Out.WriteFault = func(n int, r *Rpc) error {
+			// (runs under the link's lock: no calls back into the link)
+			if callOfEnvelope(r) == p.Abandon.ID && wireID == 0 {
+				wireID = r.GetId()
+			}
+			if !refused && r.GetBody() != nil && wireID != 0 && r.GetId() == wireID {
+				refused = true
+				e.Note("fault.body.writeFail")
+				return InjectedErr(p.ErrKind)
+			}
+			return nil
+		}
+	}
 	e.Go("caller.abandon", func() { sim.RunCall(net.CCs[0], ar) })
 	for _, c := range p.Others {
 		if c == nil || c.ID == p.Abandon.ID || c.ID == p.Probe.ID {
@@ -820,7 +860,7 @@ func execC11(e *Env, pp any) {
 		return
 	}
 	const prop = "C11"
-	site := []string{"handler-returned-early", "caller-cancelled-unread", "caller-stopped-reading", "handler-stopped-reading"}[p.Mode%4]
+	site := []string{"handler-returned-early", "caller-cancelled-unread", "caller-stopped-reading", "handler-stopped-reading", "caller-gave-up-after-refused-send"}[p.Mode%5]
 	if p.Mode == 2 {
 		e.Note("abandon.caller-stops-reading")
 		if p.Abandon.HSendN-len(ar.CGot) >= 2 {
